@@ -300,8 +300,12 @@ def ccsds_generator(
         if buffer_read_size_bytes is None:
             # Default to a full read of the file
             buffer_read_size_bytes = -1
-        total_length_bytes = binary_data.seek(0, io.SEEK_END)  # This is probably preferable to len
-        binary_data.seek(0, 0)
+        if binary_data.seekable():
+            total_length_bytes = binary_data.seek(0, io.SEEK_END)  # This is probably preferable to len
+            binary_data.seek(0, 0)
+        else:
+            # e.g. a pipe, a FIFO or sys.stdin.buffer: we cannot know the length in advance, just read until EOF
+            total_length_bytes = None
         logger.info(f"Creating packet generator from a filelike object, {binary_data}. "
                     f"Total length is {total_length_bytes} bytes")
         read_bytes_from_source = binary_data.read
